@@ -410,4 +410,24 @@ example :
       = [(false, .deleted, some (.child2 "c1" ⟨"n", [], none, [], []⟩ "g"))] := by
   decide +kernel
 
+/-- **a context built with NewTxMutateContext** around the transaction of an enclosing Db.Update (mode raw):
+    the commit actions registered on that context run exactly once when the transaction commits, the
+    tx-complete listeners once (`commit_actions_once` holds for this mode as for the others — this is
+    its instance), and never for a failed one (`rolled_back_no_events`).  Its pre-commit actions are never
+    run: a failing one does not fail the transaction (witness below). -/
+theorem commit_actions_once_tx_context (env : Env) (h : FromCode env) (db : Db) (prevCtx : Ctx) (body : List Step)
+    (hw : Propagating body)
+    (hok : (runTx env db prevCtx { mode := .raw, reuseCtx := false, body := body }).res = .ok) :
+    commitActionRuns (runTx env db prevCtx { mode := .raw, reuseCtx := false, body := body }).fired =
+      [(runTx env db prevCtx { mode := .raw, reuseCtx := false, body := body }).ctx.commitActions] ∧
+    txCompleteRuns (runTx env db prevCtx { mode := .raw, reuseCtx := false, body := body }).fired = List.range env.txListeners :=
+  commit_actions_once env h db prevCtx { mode := .raw, reuseCtx := false, body := body } hw hok
+
+example :
+    (runTx { regsP := [.listener .untyped [⟨.created, false⟩]], regsC := [], txListeners := 1, t := Generated.crudReturns }
+      [] Ctx.empty
+      { mode := .raw, reuseCtx := false, body := [.addCommit 4, .addPre 2 true, .op (.create .P "p1" ⟨"n", [], none, [], []⟩ "") .none false] }).fired
+      = [.commitActions [4], .listener .P 0 0 false .created (some (.parent "p1" ⟨"n", [], none, [], []⟩)), .txComplete 0] := by
+  decide +kernel
+
 end StorageModel.Properties.C08
